@@ -75,6 +75,9 @@ def unrebuildable(s):
     return False
 
 
+QUEUE_SIZE = [None]     # PcfgQueue.max_queue_size for this run (tuning knob, see session.draw_queue_knob)
+
+
 def run_guesser(rdir, skip_brute, cap=60000, expand_m=False):
     """returns (map string -> list of probs, total probability mass, n guesses, error)"""
     from lib_guesser.priority_queue import PcfgQueue
@@ -88,6 +91,8 @@ def run_guesser(rdir, skip_brute, cap=60000, expand_m=False):
             q = PcfgQueue(pcfg)
         except IndexError:
             raise CannotStart()
+        if QUEUE_SIZE[0]:
+            q.max_queue_size = QUEUE_SIZE[0]
         while True:
             item = q.next()
             if item is None:
@@ -528,8 +533,14 @@ def run_c13(t, tier, res):
     res.digest = digest_of([[repr(first[s]) for s in cands], [v.as_dict() for v in res.violations]])
 
 
+def _draw_knobs(tape):
+    from .. import session
+    QUEUE_SIZE[0] = tape.choice(session.QUEUE_SIZES)
+
+
 def run_one(tape, tier, prop):
     res = RunResult()
+    _draw_knobs(tape)
     with guesser.streams():
         {"C03": run_c03, "C13": run_c13}[prop](tape, tier, res)
     return res
